@@ -95,6 +95,7 @@ func (e *Engine) verifyFunc(pkgPath, key string) (rep FuncReport) {
 		rep.Arith = "exact (two's-complement wrap-around via mod)"
 	}
 	e.curTop = f
+	e.topFns[f.name] = f
 	before := len(e.obls)
 	defer func() {
 		if r := recover(); r != nil {
@@ -115,6 +116,7 @@ func (e *Engine) verifyFunc(pkgPath, key string) (rep FuncReport) {
 	var args []Val
 	var inputs []modelVar
 	addInput := func(name string, v Val) {
+		f.replayInputs = append(f.replayInputs, replayInput{name: name, val: v, typ: v.T})
 		ls := leavesOf(v.T)
 		for i, t := range flatten(v) {
 			inputs = append(inputs, modelVar{Name: name + ls[i].path, Term: t, Sort: ls[i].sort})
